@@ -161,11 +161,12 @@ func init() {
 	}, oracleNoPanic, oracleExec)
 	{
 		base := props["C06"]
-		props["C06"] = propRun{rule: base.rule + "; required stage: command paths with occurrences of a random subset of the options in scope and a chosen number of positional words; the expected outcome (success, or ErrRequired naming exactly the missing options, or exactly the unsatisfied positional arguments of the active command) is computed from the public model; args-required stage: the parser and a command each with a positional struct, each with or without required:\"yes\": the command's own mark decides which of ITS plain fields are required, the message names exactly the unfilled ones; reuse stage: nested commands each with a required option, an earlier call on the same parser that walked further down than the judged one: the judged call demands what ITS commands require", run: func(c *Ctx) {
+		props["C06"] = propRun{rule: base.rule + "; required stage: command paths with occurrences of a random subset of the options in scope and a chosen number of positional words; the expected outcome (success, or ErrRequired naming exactly the missing options, or exactly the unsatisfied positional arguments of the active command) is computed from the public model; args-required stage: the parser and a command each with a positional struct, each with or without required:\"yes\": the command's own mark decides which of ITS plain fields are required, the message names exactly the unfilled ones; reuse stage: nested commands each with a required option, an earlier call on the same parser that walked further down than the judged one: the judged call demands what ITS commands require; before-command stage: a required option or positional argument missing while the line also stops short of a required subcommand (none, or an unknown word): ErrRequired naming the item", run: func(c *Ctx) {
 			base.run(c)
 			checkC06Required(c, budget(c.Tier, 1500, 60000))
 			checkC06ArgsRequired(c, budget(c.Tier, 400, 10000))
 			checkC06Reuse(c, budget(c.Tier, 300, 10000))
+			checkC06BeforeCommand(c, budget(c.Tier, 200, 6000))
 		}}
 	}
 	parseProp("C07", caseRule+"emphasis: unknown / near-miss / out-of-scope options under the three policies", 2500, 100000, func(p *Profile) {
@@ -341,12 +342,13 @@ func init() {
 			checkC16MaskChanged(c, budget(c.Tier, 150, 5000))
 		}}
 	props["C18"] = propRun{
-		rule: "generated declarations (Completer-typed options and positionals, hidden options, nested commands) and argument vectors made of a plausible prefix and a partial last word (long/short prefixes, --name=partial, -xpartial, command prefixes, bare dash); completion list compared with the model; sortedness and hidden-name oracles; acceptance oracle against the parser itself (its own parse of the typed words gives the command context; every offered option / command, appended to those words, must be taken by the parser as that option / command; long-option and command lists must be exactly the visible ones of that context which the parser accepts there; the probes are compared with the model too); positional stage: positional fields of a completing type, k typed values, terminator / PassAfterNonOption: the type's completions are offered exactly when a field still takes the word; value stage: an option of a completing type under ASCII and multi-byte short names, the last word spelling it with a partial value as --name=V, --name V, -xV, -x=V, -x V: exactly the type's completions of the partial value, re-attached to the spelling; ignored-cluster stage: under IgnoreUnknown a typed cluster with an undeclared letter (in front of declared ones) is one passed-through word: long options stay offered, a declared last letter awaits no value, the word takes a positional field or ends command recognition; distinct per case",
+		rule: "generated declarations (Completer-typed options and positionals, hidden options, nested commands) and argument vectors made of a plausible prefix and a partial last word (long/short prefixes, --name=partial, -xpartial, command prefixes, bare dash); completion list compared with the model; sortedness and hidden-name oracles; acceptance oracle against the parser itself (its own parse of the typed words gives the command context; every offered option / command, appended to those words, must be taken by the parser as that option / command; long-option and command lists must be exactly the visible ones of that context which the parser accepts there; the probes are compared with the model too); positional stage: positional fields of a completing type, k typed values, terminator / PassAfterNonOption: the type's completions are offered exactly when a field still takes the word; value stage: an option of a completing type under ASCII and multi-byte short names, the last word spelling it with a partial value as --name=V, --name V, -xV, -x=V, -x V: exactly the type's completions of the partial value, re-attached to the spelling; ignored-cluster stage: under IgnoreUnknown a typed cluster with an undeclared letter (in front of declared ones) is one passed-through word: long options stay offered, a declared last letter awaits no value, the word takes a positional field or ends command recognition; outer-word stage: behind a command without subcommands a word spelling a sibling command (or its alias, or the command itself) is a rest argument: the command's own and its ancestors' options only, no values of the sibling's positional arguments, no command names; distinct per case",
 		run: func(c *Ctx) {
 			checkC18(c, budget(c.Tier, 1500, 80000))
 			checkC18Positional(c, budget(c.Tier, 300, 10000))
 			checkC18Values(c, budget(c.Tier, 400, 20000))
 			checkC18IgnoredCluster(c, budget(c.Tier, 200, 5000))
+			checkC18OuterWord(c, budget(c.Tier, 150, 4000))
 		}}
 }
 
